@@ -250,6 +250,9 @@ def run(chk, ctx):
     chk.ob('C16.G', 'effects of the codec entry points', not bad_effects,
            '%d abstract runs, %d effects on shared objects' %
            (runs, len(bad_effects)))
+    chk.assume('Decimal arithmetic consults the thread\'s decimal context '
+               'implicitly; the application leaves its precision at or above '
+               'the default of 28 digits')
     chk.floor('C16.G', 3, 'who-may-write facts')
 
     # ---- D: defaults
